@@ -15,6 +15,12 @@ THEOREMS: dict[str, list[str]] = {
         "Rbacx.C04.c04_resolve_missing_step", "Rbacx.C04.c04_resolve_null_absorbs", "Rbacx.C04.c04_mismatch_is_local",
         "Rbacx.C04.c04_mismatch_not_applicable",
     ],
+    "C05": [
+        "Rbacx.C05.c05_actions", "Rbacx.C05.c05_match_iff", "Rbacx.C05.c05_empty_target", "Rbacx.C05.c05_type_iff",
+        "Rbacx.C05.c05_strict_type_no_coercion", "Rbacx.C05.c05_id_iff", "Rbacx.C05.c05_strict_id_no_coercion",
+        "Rbacx.C05.c05_attr_iff", "Rbacx.C05.c05_attrs_iff", "Rbacx.C05.c05_missing_attr_fails", "Rbacx.C05.c05_engine_flag",
+        "Rbacx.C05.c05_path_reference", "Rbacx.C05.c05_path_compiled",
+    ],
 }
 
 PROPERTY_IMPORTS = ["Rbacx.Properties.C02"]
